@@ -22,7 +22,7 @@ from pyvc import run as RUN  # noqa
 from pyvc import lemmas as LEM  # noqa
 import pyvc.pandas_model  # noqa  (registers the assumed pandas contracts)
 
-CONTRACT_MODULES = ['filter_utils', 'generic_helper', 'validation', 'profiler', 'missing_value_handler', 'externals', 'token_ordering', 'position', 'set_sim_join']
+CONTRACT_MODULES = ['filter_utils', 'generic_helper', 'validation', 'profiler', 'missing_value_handler', 'externals', 'token_ordering', 'position', 'set_sim_join', 'join_drivers']
 
 
 def load_contracts():
@@ -164,6 +164,21 @@ def run_bounded(targets, tier, seed):
         return [dict(fn='*', case=None, cases_run=0, failures=[], error='bounded harness failed: %s' % e)]
 
 
+def reproduce_findings(ids):
+    """run the witnesses of recorded findings on the real code"""
+    if not ids:
+        return {}
+    env = dict(os.environ)
+    env['PYTHONPATH'] = repo_root() + os.pathsep + HERE
+    try:
+        p = subprocess.run(['/venv/bin/python', '-W', 'ignore', os.path.join(HERE, 'replay', 'harness.py'),
+                            '--findings'], input=json.dumps(dict(ids=ids)), capture_output=True, text=True,
+                           env=env, timeout=300, cwd=HERE)
+        return json.loads(p.stdout.strip().splitlines()[-1])
+    except Exception as e:
+        return dict((i, 'witness harness failed: %s' % e) for i in ids)
+
+
 def check_property(pid, tier='quick', seed=0):
     from props import PROPS
     t0 = time.time()
@@ -251,6 +266,16 @@ def check_property(pid, tier='quick', seed=0):
             print('UNDECIDED property=%s obligation=%s (%s) details=%s' % (pid, r['name'], r.get('detail', '')[:200], rpath))
             if exit_code == 0:
                 exit_code = 2
+    # recorded findings that are stated as explicit extra preconditions (not as failing
+    # obligations): their witnesses are replayed on the real code on every run
+    pre_findings = [k for k in known if pid in k.get('properties', []) and k.get('as_precondition')]
+    repro = reproduce_findings([k['id'] for k in pre_findings])
+    for k in pre_findings:
+        if repro.get(k['id']) and k['id'] not in seen_known:
+            seen_known.add(k['id'])
+            known_hit.append(dict(finding=k['id'], obligation='precondition:' + k['as_precondition'],
+                                  reproduced=repro[k['id']]))
+            print('KNOWN-FINDING: property=%s %s: %s' % (pid, k['id'], k['what']))
     for b in bounded_results:
         if b.get('error'):
             print('pyvc: bounded stand-in for %s could not run: %s' % (b['fn'], b['error']))
